@@ -23,8 +23,9 @@ theorem item_slice (fl : Flags) (s : Text) (body : List Tok) (ht : Tiles s.lengt
     (l0 l' : Tok) (hm : Item.checkAll fl (p .sof :: (mid ++ [p .eof])) l0 (Lex.sofTok :: body) = some (l', []))
     {i j : Item} (hi : i ∈ mid) (hs : Item.Sub j i) (hsol : j.solid = true)
     (is : List Item) (a b : Nat) (hj : j = .node (some (a, b)) is) :
-    a ≤ b ∧ b ≤ s.length ∧ ∃ seg, Tiles (b - a) (slice s a b) (seg ++ [eofT (b - a)]) ∧
-      ∃ l2, Item.checkAll fl [p .sof, j.down a, p .eof] default (Lex.sofTok :: (seg ++ [eofT (b - a)])) = some (l2, []) := by
+    a ≤ b ∧ b ≤ s.length ∧ fl.noLocation = false ∧ ∃ seg, Tiles (b - a) (slice s a b) (seg ++ [eofT (b - a)]) ∧
+      Item.checkAll fl [p .sof, j.down a, p .eof] default (Lex.sofTok :: (seg ++ [eofT (b - a)])) =
+        some (eofT (b - a), []) := by
   -- peel `SOF`, `mid`, `EOF`
   rw [checkAll_cons] at hm
   obtain ⟨l1, ts1, h1, hm⟩ := hm
@@ -67,7 +68,7 @@ theorem item_slice (fl : Flags) (s : Text) (body : List Tok) (ht : Tiles s.lengt
   rw [hb] at ht
   obtain ⟨hle1, hle2, hsl⟩ := Tiles.slice (pre ++ pre2) f tl restj hpost ht
   rw [← hlast] at hle1 hle2 hsl
-  refine ⟨hle1, hle2, (f :: tl).map (Tok.down f.start), hsl, ?_⟩
+  refine ⟨hle1, hle2, hnl, (f :: tl).map (Tok.down f.start), hsl, ?_⟩
   -- the match on the slice
   have hc1 := hret [eofT lj'.stop] (.inr (by intro t tl h; cases h; rfl))
   have hc2 := check_last_indep fl _ _ _ _ _ hsol hc1 Lex.sofTok
@@ -77,7 +78,6 @@ theorem item_slice (fl : Flags) (s : Text) (body : List Tok) (ht : Tiles s.lengt
   rw [hsof, List.map_append] at hc3
   have he : List.map (Tok.down f.start) [eofT lj'.stop] = [eofT (lj'.stop - f.start)] := rfl
   rw [he] at hc3
-  refine ⟨eofT (lj'.stop - f.start), ?_⟩
   rw [checkAll_cons]
   refine ⟨Lex.sofTok, _, by rw [check_tok]; exact ⟨_, rfl, rfl, rfl⟩, ?_⟩
   rw [checkAll_cons]
